@@ -117,34 +117,40 @@ Fixpoint find_service (id : Z) (ss : list service) : option service :=
   | s :: r => if s_id s =? id then Some s else find_service id r
   end.
 
+(* global negative responses tried for a service which cannot decode the message *)
+Fixpoint gnr_fallback (id : Z) (gs : list cobj) (msg : bytes) : res (list (Z * Z * value)) :=
+  match gs with
+  | [] => Ok []
+  | g :: gr =>
+    match decode_msg (c_params g) msg with
+    | Ok v => do rest <- gnr_fallback id gr msg; Ok ((id, c_id g, v) :: rest)
+    | Err e' => if is_decode_err e' then gnr_fallback id gr msg else Err e'
+    end
+  end.
+
+(* what one candidate contributes *)
+Definition cand_messages (L : layer) (id : Z) (msg : bytes) : res (list (Z * Z * value)) :=
+  match find_service id (l_services L) with
+  | None => Ok []
+  | Some s =>
+    match service_decode s msg with
+    | Ok (c, v) => Ok [(id, c, v)]
+    | Err e => if is_decode_err e then gnr_fallback id (l_gnrs L) msg else Err e
+    end
+  end.
+
+Fixpoint all_messages (L : layer) (cands : list Z) (msg : bytes) : res (list (Z * Z * value)) :=
+  match cands with
+  | [] => Ok []
+  | id :: r =>
+    do m <- cand_messages L id msg;
+    do rest <- all_messages L r msg;
+    Ok (m ++ rest)
+  end.
+
 Definition layer_decode_cands (L : layer) (cands : list Z) (msg : bytes) : res (list (Z * Z * value)) :=
-  do out <- (fix go (l : list Z) (acc : list (Z * Z * value)) (last : option err) : res (list (Z * Z * value) * option err) :=
-               match l with
-               | [] => Ok (acc, last)
-               | id :: r =>
-                 match find_service id (l_services L) with
-                 | None => go r acc last
-                 | Some s =>
-                   match service_decode s msg with
-                   | Ok (c, v) => go r (acc ++ [(id, c, v)]) last
-                   | Err e =>
-                     if is_decode_err e then
-                       do g <- (fix gn (gs : list cobj) (acc : list (Z * Z * value)) (found : bool)
-                                : res (list (Z * Z * value) * bool) :=
-                                  match gs with
-                                  | [] => Ok (acc, found)
-                                  | g :: gr =>
-                                    match decode_msg (c_params g) msg with
-                                    | Ok v => gn gr (acc ++ [(id, c_id g, v)]) true
-                                    | Err e' => if is_decode_err e' then gn gr acc found else Err e'
-                                    end
-                                  end) (l_gnrs L) acc false;
-                       go r (fst g) (if snd g then last else Some e)
-                     else Err e
-                   end
-                 end
-               end) cands [] None;
-  match fst out with
+  do out <- all_messages L cands msg;
+  match out with
   | [] => Err EDecode
   | l => Ok l
   end.
